@@ -102,9 +102,12 @@ fn map_pos(from: &Printed, to: &Printed, line: u32, col: u32) -> Option<(u32, u3
 fn layouts_check(ctx: &Ctx, n: u64) {
     let mut cfg = gen::GenCfg::balanced();
     cfg.sloppy = 3;
+    let mut big = gen::GenCfg::big();
+    big.sloppy = 3;
     let via = if ctx.tier == Tier::Quick { Via::Cli } else { Via::Fast };
     ctx.proptest_tapes("layouts", n, 900, via, None, |t| {
-        let prog = gen::gen_prog(t, &cfg);
+        let which = if t.chance(1, 6) { ctx.label("big profile"); &big } else { &cfg };
+        let prog = gen::gen_prog(t, which);
         let rr = interp::run(&prog);
         if rr.is_discard() {
             ctx.exclude("reference discards the program");
